@@ -15,6 +15,7 @@ def _one(ctx, sc, entry, stats, rng, sample=False):
     m1 = rng.choice(WALL_MODES)
     recs, h, w = rig.run(sc, entry, wall_seed=rng.randrange(1 << 30), wall_mode=m1)
     ctx.inc("runs")
+    ctx.inc("calls", len(recs))
     ctx.inc("wall_clock_reads_by_library", w.hits["wall"])
     ctx.inc("monotonic_clock_reads", w.hits["mono"])
     common.check_recs(ctx, sc, entry, recs, [O.o_envelope], stats)
